@@ -14,13 +14,16 @@
      conv    (at)x -> bt : every ordered pair of the 12 arithmetic types, every value of the
              source type's table on which the conversion is defined (6.3.1.2 - 6.3.1.5)
      arith   x op y, op in add sub mul div, both operands of one floating type, ArT x ArT
-     neg     -x
+     neg     -x, ++x, x-- (the object afterwards)
      cmp     x op y, six relational/equality operators, CmT x CmT  (int result)
      truth   if (x) / !x / x ? : / (x && y) / (x || y) over CmT    (int result)
      dec     decimal floating constants  digits x 10^e  x suffix
      hex     hexadecimal floating constants
      mixed   x op y with operands of different arithmetic types, at least one floating:
              usual arithmetic conversions, result type and value
+             (+ - * / < ==, and c ? x : y whose type is the common type, 6.5.15p5)
+     opasg   x op= y with operands of different arithmetic types, at least one floating
+             (6.5.16.2: x = (T)(x op y) evaluated in the common type); defined cases only
      vararg  a float / double argument matching "..." (default argument promotion)
 
    Seed/Stride subsample the large families (arith cmp truth-binary dec hex mixed) for the
@@ -142,12 +145,12 @@ ASSUME TLCSet(22, TabOf(LAMBDA t : ArTab(Fmt(t)), FSeq))
 ASSUME TLCSet(23, TabOf(LAMBDA t : CmTab(Fmt(t)), FSeq))
 ASSUME TLCSet(24, TabOf(MixTab, TSeq))
 
-Big == fam \in {"arith", "cmp", "dec", "hex", "mixed"} \/ (fam = "truth" /\ op \in {"land", "lor"})
+Big == fam \in {"arith", "cmp", "dec", "hex", "mixed", "opasg"} \/ (fam = "truth" /\ op \in {"land", "lor"})
 Unary == fam \in {"conv", "neg", "vararg"} \/ (fam = "truth" /\ op \in {"if", "not", "cond"})
 Tab(t) == CASE fam = "conv" -> TLCGet(21)[t]
             [] fam \in {"arith", "neg", "vararg"} -> TLCGet(22)[t]
             [] fam \in {"cmp", "truth"} -> TLCGet(23)[t]
-            [] fam = "mixed" -> TLCGet(24)[t]
+            [] fam \in {"mixed", "opasg"} -> TLCGet(24)[t]
 NI1 == CASE fam = "dec" -> Len(DecMan) [] fam = "hex" -> Len(HexMan) [] OTHER -> Len(Tab(a))
 NJ1 == CASE fam = "dec" -> Len(DecExp) [] fam = "hex" -> Len(HexExp) [] Unary -> 1 [] OTHER -> Len(Tab(b))
 
@@ -157,18 +160,20 @@ RelOps == {"lt", "le", "gt", "ge", "eq", "ne"}
 Cases ==
   ({"conv"} \X N1S \X ATypes \X ATypes)
   \cup {<<"arith", o, t, t>> : o \in ArOps, t \in FTypes}
-  \cup {<<"neg", "neg", t, "-">> : t \in FTypes}
+  \cup {<<"neg", o, t, "-">> : o \in {"neg", "inc", "dec"}, t \in FTypes}
   \cup {<<"cmp", o, t, t>> : o \in RelOps, t \in FTypes}
   \cup {<<"truth", o, t, "-">> : o \in {"if", "not", "cond"}, t \in FTypes}
   \cup {<<"truth", o, t, t>> : o \in {"land", "lor"}, t \in FTypes}
   \cup {<<"dec", "-", t, "-">> : t \in FTypes}
   \cup {<<"hex", "-", t, "-">> : t \in FTypes}
-  \cup {<<"mixed", o, t, u>> : o \in {"add", "sub", "mul", "div", "lt", "eq"},
+  \cup {<<"mixed", o, t, u>> : o \in {"add", "sub", "mul", "div", "lt", "eq", "cond"},
                               t \in ATypes, u \in ATypes}
+  \cup {<<"opasg", o, t, u>> : o \in ArOps, t \in ATypes, u \in ATypes}
   \cup {<<"vararg", "-", t, "-">> : t \in {"float", "double"}}
-CaseOK(cs) == cs[1] = "mixed" => (cs[3] # cs[4] /\ (IsF(cs[3]) \/ IsF(cs[4])))
+CaseOK(cs) == cs[1] \in {"mixed", "opasg"} => (cs[3] # cs[4] /\ (IsF(cs[3]) \/ IsF(cs[4])))
 OIdx(o) == CASE o = "add" -> 1 [] o = "sub" -> 2 [] o = "mul" -> 3 [] o = "div" -> 4 [] o = "lt" -> 5 [] o = "le" -> 6
              [] o = "gt" -> 7 [] o = "ge" -> 8 [] o = "eq" -> 9 [] o = "ne" -> 10 [] o = "land" -> 11 [] o = "lor" -> 12
+             [] o = "cond" -> 13 [] o = "inc" -> 14 [] o = "dec" -> 15
              [] OTHER -> 0
 TI(t) == IF t = "-" THEN 0 ELSE TIdx(t)
 CaseHash(cs) == OIdx(cs[2]) * 101 + TI(cs[3]) * 7 + TI(cs[4]) * 13
@@ -186,7 +191,9 @@ R(ok, t, v) == [ok |-> ok, t |-> t, v |-> v]
 Expect(ii, jj) ==
   CASE fam = "conv"  -> LET v == Tab(a)[ii] IN IF ConvDef(a, b, v) THEN R(TRUE, b, Conv(a, b, v)) ELSE R(FALSE, b, 0)
     [] fam = "arith" -> R(TRUE, a, Arith(Fmt(a), op, Tab(a)[ii], Tab(a)[jj]))
-    [] fam = "neg"   -> R(TRUE, a, Neg(Tab(a)[ii]))
+    [] fam = "neg"   -> R(TRUE, a, CASE op = "neg" -> Neg(Tab(a)[ii])
+                                      [] op = "inc" -> Add(Fmt(a), Tab(a)[ii], FI(Fmt(a), 1))
+                                      [] op = "dec" -> Sub(Fmt(a), Tab(a)[ii], FI(Fmt(a), 1)))
     [] fam = "cmp"   -> R(TRUE, "int", BoolIV(Rel(op, Tab(a)[ii], Tab(a)[jj])))
     [] fam = "truth" -> LET x == Tab(a)[ii] IN
                         R(TRUE, "int", BoolIV(CASE op \in {"if", "cond"} -> Truth(x)
@@ -200,7 +207,11 @@ Expect(ii, jj) ==
                             x == Conv(a, ct, Tab(a)[ii])
                             y == Conv(b, ct, Tab(b)[jj])
                         IN IF op \in {"lt", "eq"} THEN R(TRUE, "int", BoolIV(Rel(op, x, y)))
+                           ELSE IF op = "cond" THEN R(TRUE, ct, x)
                            ELSE R(TRUE, ct, Arith(Fmt(ct), op, x, y))
+    [] fam = "opasg" -> LET ct == CommonType(a, b)
+                            r  == Arith(Fmt(ct), op, Conv(a, ct, Tab(a)[ii]), Conv(b, ct, Tab(b)[jj]))
+                        IN IF ConvDef(ct, a, r) THEN R(TRUE, a, Conv(ct, a, r)) ELSE R(FALSE, a, 0)
     [] fam = "vararg" -> R(TRUE, ArgPromote(a), FloatToFloat(Fmt(ArgPromote(a)), Tab(a)[ii]))
 
 EmitR(r, ii, jj) ==
